@@ -520,6 +520,15 @@ func (srv *Server) serveUDP(l net.PacketConn) error {
 	// Each run signals on its own channel, see serveTCP.
 	shutdown := srv.shutdown
 
+	// However this run ends, a Shutdown that found the server started and
+	// is waiting for it is told so: the server counts as started from the
+	// moment the start path dropped the lock, not from the first read.
+	var wg sync.WaitGroup
+	defer func() {
+		wg.Wait()
+		close(shutdown)
+	}()
+
 	reader := Reader(defaultReader{srv})
 	if srv.DecorateReader != nil {
 		reader = srv.DecorateReader(reader)
@@ -530,8 +539,12 @@ func (srv *Server) serveUDP(l net.PacketConn) error {
 	if !isUDP && !canPacketConn {
 		// The server does not begin to serve: it must not count as started,
 		// or a later Shutdown would wait for a serve loop that never ran.
+		// (Unless a Shutdown has got in already and the Server has been
+		// started again: the flag is that run's then.)
 		srv.lock.Lock()
-		srv.started = false
+		if srv.shutdown == shutdown {
+			srv.started = false
+		}
 		srv.lock.Unlock()
 		return &Error{err: "PacketConnReader was not implemented on Reader returned from DecorateReader but is required for net.PacketConn"}
 	}
@@ -539,12 +552,6 @@ func (srv *Server) serveUDP(l net.PacketConn) error {
 	if srv.NotifyStartedFunc != nil {
 		srv.NotifyStartedFunc()
 	}
-
-	var wg sync.WaitGroup
-	defer func() {
-		wg.Wait()
-		close(shutdown)
-	}()
 
 	rtimeout := srv.getReadTimeout()
 	// deadline is not used here
